@@ -160,6 +160,12 @@ def r16_2(ctx, J):
         enc = exp.get(attr)
         if enc is None or enc[0] not in ("id", "id-list", "pair-list"):
             ctx.violation(f"{cls}:relink-without-id-encoding:{attr}", ctx.repo.method(PROJECT, "read_simple_json").loc(node), f"read_simple_json re-links {cls}.{attr} but it is exported as `{enc[0] if enc else 'nothing'}`")
+    for (cls, attr), cond in J.relink_conditional.items():
+        rd = ctx.repo.method(PROJECT, "read_simple_json")
+        test = ast.unparse(cond.test)[:60] if isinstance(cond, (ast.If, ast.While)) else "try"
+        ctx.violation(f"{cls}:relink-conditional:{attr}", rd.loc(cond),
+                      f"read_simple_json re-links {cls}.{attr} only under `{test}`: for the other objects the attribute keeps raw ID strings, "
+                      f"so cross references do not resolve and a re-export (or a resumed run) fails")
     ctx.require(len(J.relink) >= 18, f"re-link table shrank to {len(J.relink)} (<18)")
     ctx.end()
 
